@@ -28,6 +28,8 @@ type LookupCase struct {
 	Kind    string    `json:"kind"`    // ok | err | hang | hang-then-ok
 	DelayS  int       `json:"delay_s"` // answer delay for ok
 	Callers []LCaller `json:"callers"`
+	// the cache device is failing throughout (a failed flush is not a failed lookup)
+	CacheFail bool `json:"cache_fail,omitempty"`
 }
 
 type lres struct {
@@ -42,6 +44,14 @@ type applyTarget struct {
 	X []byte `setec:"x"`
 }
 
+// a field that takes the secret through the JSON verb
+type applyJSONTarget struct {
+	J int `setec:"x,json"`
+}
+
+// the secret's value: valid JSON, so that every kind of field can take it
+const xVal = "7"
+
 func runC16(t *testing.T, c LookupCase) (v *h.Violation, info h.Info) {
 	synctest.Test(t, func(t *testing.T) { v = runC16Bubble(c, &info) })
 	return
@@ -50,13 +60,17 @@ func runC16(t *testing.T, c LookupCase) (v *h.Violation, info h.Info) {
 func runC16Bubble(c LookupCase, info *h.Info) *h.Violation {
 	svc := fake.NewSvc()
 	svc.Set("d", 1, []byte("dv"))
-	svc.Set("x", 3, []byte("xv"))
+	svc.Set("x", 3, []byte(xVal))
 	cache := fake.NewCache(nil)
 	st, err := setec.NewStore(context.Background(), setec.StoreConfig{Client: svc, Secrets: []string{"d"}, AllowLookup: c.Allow, Cache: cache, PollInterval: -1, Logf: nolog})
 	if err != nil {
 		return h.V("harness", "NewStore: %v", err)
 	}
 	defer st.Close()
+	if c.CacheFail {
+		cache.SetFailing(true)
+		info.Class("cache-device-failing")
+	}
 	switch c.Kind {
 	case "ok":
 		svc.SetDefault("x", fake.Beh{Kind: "ok", DelayMs: c.DelayS * 1000})
@@ -114,6 +128,15 @@ func runC16Bubble(c LookupCase, info *h.Info) *h.Violation {
 					if err == nil {
 						r.val = u.Get()
 					}
+				case "applyjson":
+					var tgt applyJSONTarget
+					f, err := setec.ParseFields(&tgt, "")
+					if err != nil {
+						r.err = err
+						break
+					}
+					r.err = f.Apply(ctx, st)
+					r.val = fmt.Sprint(tgt.J)
 				case "apply":
 					var tgt applyTarget
 					f, err := setec.ParseFields(&tgt, "")
@@ -212,8 +235,8 @@ func runC16Bubble(c LookupCase, info *h.Info) *h.Violation {
 		}
 		if r.err == nil {
 			anyOK = true
-			if r.val != "xv" {
-				return h.V("working-handle", "caller %d %+v got value %q, the service serves %q", i, cl, r.val, "xv")
+			if r.val != xVal {
+				return h.V("working-handle", "caller %d %+v got value %q, the service serves %q", i, cl, r.val, xVal)
 			}
 		}
 		if c.Kind == "err" && r.err == nil {
@@ -226,9 +249,18 @@ func runC16Bubble(c LookupCase, info *h.Info) *h.Violation {
 				if j == i || oc.Entry == "secret" {
 					continue
 				}
+				// when does caller j's context end at the latest? A caller WITH a deadline keeps it
+				// (also beyond five minutes: the fallback only applies to contexts without one); a
+				// cancellable context without deadline ends at its cancellation or at the five-minute
+				// fallback, whichever comes first
 				end := starts[j] + 5*time.Minute
-				if oc.Ctx != "bg" && oc.Ctx != "background" && time.Duration(oc.TS)*time.Second < 5*time.Minute {
+				switch oc.Ctx {
+				case "deadline":
 					end = starts[j] + time.Duration(oc.TS)*time.Second
+				case "cancel":
+					if d := time.Duration(oc.TS) * time.Second; d < 5*time.Minute {
+						end = starts[j] + d
+					}
 				}
 				if end > latestOther {
 					latestOther = end
@@ -305,9 +337,10 @@ func runC16Bubble(c LookupCase, info *h.Info) *h.Violation {
 		if err != nil {
 			return h.V("cached-after-lookup", "cache document: %v", err)
 		}
-		if e, ok := doc["x"]; !ok || e.Version != 3 || string(e.Value) != "xv" {
+		if e, ok := doc["x"]; !c.CacheFail && (!ok || e.Version != 3 || string(e.Value) != xVal) {
 			return h.V("cached-after-lookup", "after a successful lookup the cache document is %q", cache.Data())
 		}
+		cache.SetFailing(false)
 		svc.SetDefault("x", fake.Beh{Kind: "ok"})
 		l1 := svc.LogLen()
 		if err := st.Refresh(context.Background()); err != nil {
@@ -322,8 +355,10 @@ func runC16Bubble(c LookupCase, info *h.Info) *h.Violation {
 		if !polled {
 			return h.V("polled-after-lookup", "the looked-up secret is not polled by the next Refresh")
 		}
-	} else if st.Secret("x") != nil && c.Kind == "hang" {
-		return h.V("failed-lookup-installs-nothing", "the secret is known although the service never answered")
+	} else if st.Secret("x") != nil {
+		// no caller obtained a handle, so every flight failed (the scripted service honours the
+		// context of the request): nothing may have been installed
+		return h.V("failed-lookup-installs-nothing", "every lookup reported an error, yet the secret is known to the store afterwards (service %s, cache failing=%v)", c.Kind, c.CacheFail)
 	}
 	return nil
 }
@@ -342,9 +377,10 @@ func fmtReqs(rs []fake.Req) string {
 
 func genLookupCase(rt *rapid.T) LookupCase {
 	c := LookupCase{
-		Allow:  rapid.IntRange(0, 5).Draw(rt, "allow") != 0,
-		Kind:   rapid.SampledFrom([]string{"ok", "ok", "err", "hang", "hang", "hang-then-ok"}).Draw(rt, "kind"),
-		DelayS: rapid.SampledFrom([]int{0, 0, 1, 7, 30, 120, 299, 301, 400}).Draw(rt, "delay"),
+		Allow:     rapid.IntRange(0, 5).Draw(rt, "allow") != 0,
+		Kind:      rapid.SampledFrom([]string{"ok", "ok", "err", "hang", "hang", "hang-then-ok"}).Draw(rt, "kind"),
+		DelayS:    rapid.SampledFrom([]int{0, 0, 1, 7, 30, 120, 299, 301, 400}).Draw(rt, "delay"),
+		CacheFail: rapid.IntRange(0, 4).Draw(rt, "cachefail") == 0,
 	}
 	n := rapid.IntRange(1, 5).Draw(rt, "ncallers")
 	for i := 0; i < n; i++ {
@@ -352,7 +388,7 @@ func genLookupCase(rt *rapid.T) LookupCase {
 			StartS: rapid.SampledFrom([]int{0, 0, 0, 1, 5, 60, 200, 299, 301}).Draw(rt, "start"),
 			Ctx:    rapid.SampledFrom([]string{"bg", "background", "deadline", "cancel"}).Draw(rt, "ctx"),
 			TS:     rapid.SampledFrom([]int{1, 2, 10, 100, 299, 301, 500, 900}).Draw(rt, "t"),
-			Entry:  rapid.SampledFrom([]string{"lookup", "lookup", "lookup", "updater", "apply", "secret"}).Draw(rt, "entry"),
+			Entry:  rapid.SampledFrom([]string{"lookup", "lookup", "lookup", "updater", "apply", "applyjson", "secret"}).Draw(rt, "entry"),
 		}
 		c.Callers = append(c.Callers, cl)
 	}
@@ -361,10 +397,10 @@ func genLookupCase(rt *rapid.T) LookupCase {
 
 var c16 = &h.Campaign[LookupCase]{
 	Prop: "C16", Sub: "lookup",
-	Rule: "rapid + testing/synctest (virtual time, tie-free instants): AllowLookup on/off; service behaviour for the unknown name (answers after a delay, fails, hangs until the request context ends, hangs once then answers); 1-5 concurrent callers with start offsets, contexts (none, deadline, cancelled at T) and entry points (LookupSecret, NewUpdater, Fields.Apply, Secret); observed over 40 virtual minutes; non-trivial = lookups disabled (refusal path), or >= 2 callers with different context kinds against a slow or hanging service; distinct by scenario",
+	Rule:  "rapid + testing/synctest (virtual time, tie-free instants): AllowLookup on/off; service behaviour for the unknown name (answers after a delay, fails, hangs until the request context ends, hangs once then answers); 1-5 concurrent callers with start offsets, contexts (none, deadline, cancelled at T) and entry points (LookupSecret, NewUpdater, Fields.Apply on a []byte field and on a ,json field, Secret); in one case of five the cache device fails throughout (a failed flush is not a failed lookup, and when every lookup failed nothing may be known afterwards); observed over 40 virtual minutes; non-trivial = lookups disabled (refusal path), or >= 2 callers with different context kinds against a slow or hanging service; distinct by scenario",
 	Quick: 3000, Thorough: 3000000,
-	Gen:   genLookupCase,
-	Run:   runC16,
+	Gen: genLookupCase,
+	Run: runC16,
 }
 
 func init() { c16.Register() }
